@@ -246,6 +246,26 @@ func init() {
 			}
 			outs = append(outs, out)
 		}
+		if len(bs) > 0 && len(outs) > 0 {
+			// the caller's initial bindings may hold Go-typed values (core.Map, []string, ints ...): whatever the matcher makes
+			// of them, it leaves them as they are (one more call whose answer is not looked at; compared type-sensitively)
+			for _, m := range []int{1, 2, 7, 15} {
+				tb := core.Bindings{}
+				for k, v := range bs {
+					tb[k] = goTyped(deepCopy(v), m, true)
+				}
+				tb0 := deepCopyTyped(map[string]interface{}(tb))
+				func() {
+					defer func() { recover() }()
+					core.Match(newCtx(), pin, din, tb)
+				}()
+				if !reflect.DeepEqual(tb0, map[string]interface{}(tb)) {
+					if o, ok := outs[len(outs)-1].(map[string]interface{}); ok {
+						o["mutated"] = true
+					}
+				}
+			}
+		}
 		if reps == 1 {
 			return outs[0]
 		}
